@@ -175,9 +175,17 @@ public:
   uintptr_t region_base() const { return base; }
 
 protected:
-  inline bool impl_create_sandbox(const verif_lib* a_lib = nullptr, bool a_fail = false)
+  // a_fail: 0 = succeed; 1 = fail at once; 2 = fail LATE: the region was already reserved and its base recorded when the
+  // failure happens; the reservation is given back but the record of the base stays (a back end is not obliged to
+  // clean up what RLBox must not look at: the instance never became a created sandbox)
+  inline bool impl_create_sandbox(const verif_lib* a_lib = nullptr, int a_fail = 0)
   {
-    if (a_fail || fail_create) {
+    if (a_fail == 1 || fail_create) {
+      return false;
+    }
+    if (a_fail == 2) {
+      base = fixed_base_hint;
+      fixed_base_hint = 0;
       return false;
     }
     lib = a_lib;
@@ -305,6 +313,7 @@ public:
   bool grant_succeeds = false;
   uintptr_t grant_answer = 0;
   int grant_calls = 0, deny_calls = 0;
+  int unregister_calls = 0;      // how often the front end asked the back end to release an entry point
   uintptr_t last_transfer_start = 0;
   size_t last_transfer_num = 0;
 protected:
@@ -389,6 +398,7 @@ protected:
   template<typename T_Ret, typename... T_Args>
   inline void impl_unregister_callback(void* key)
   {
+    unregister_calls++;
     for (uint32_t i = 0; i < MAX_CALLBACKS; i++) {
       if (callback_unique_keys[i] == key) {
         callback_unique_keys[i] = nullptr;
